@@ -18,6 +18,40 @@ def Chrono (ds : List DayIn) : Prop := ds.Pairwise (fun a b => a.date.y ≤ b.da
 /-- the work plan of a day -/
 def planOn (c : Cfg) (d : DayIn) (s : State) : List Nat := planKeys c (requestPhase c d.date s)
 
+/-! ### calendar lemmas for the simulated years -/
+
+/-- a one-day simulation has exactly its own year -/
+theorem simYearsOf_single_day (d : Date) : simYearsOf d d = [d.y] := by
+  unfold simYearsOf
+  simp only
+  rw [if_neg (by omega)]
+  have h : d.y + 1 - d.y = 1 := by omega
+  rw [h]; simp [List.range_succ]
+
+/-- shifting a period by exactly one year shifts its years by one -/
+theorem simYearsOf_shift (a b : Date) (hb : 1 ≤ b.y) :
+    simYearsOf { a with y := a.y + 1 } { b with y := b.y + 1 } = (simYearsOf a b).map (· + 1) := by
+  unfold simYearsOf
+  simp only
+  split
+  · have h : b.y + 1 - 1 + 1 - (a.y + 1) = b.y - 1 + 1 - a.y := by omega
+    rw [h, List.map_map]
+    apply List.map_congr_left
+    intro x _; simp only [Function.comp]; omega
+  · have h : b.y + 1 + 1 - (a.y + 1) = b.y + 1 - a.y := by omega
+    rw [h, List.map_map]
+    apply List.map_congr_left
+    intro x _; simp only [Function.comp]; omega
+
+/-- a period that ends before the anniversary of its start date does not count its last calendar year
+(the trailing partial year of known finding F12) -/
+theorem simYearsOf_trailing_partial (a b : Date) (hb : 1 ≤ b.y) (h : a.m > b.m ∨ (a.m = b.m ∧ a.d > b.d)) :
+    b.y ∉ simYearsOf a b := by
+  unfold simYearsOf
+  simp only [h, if_true, List.mem_map, List.mem_range]
+  intro ⟨x, hx, he⟩
+  omega
+
 /-! ### 1. requests are issued only under the guard -/
 
 /-- a routine request is issued only for a planner of the method, on a day whose year is a
